@@ -380,6 +380,7 @@ func gen(c *harness.C) []harness.Case {
 			}
 		}
 		cells = append(cells, cell{5, 3, 1}, cell{5, 3, 2}, cell{6, 4, 1}, cell{7, 4, 1}, cell{8, 2, 1}, cell{8, 5, 1}, cell{9, 5, 1})
+		cells = append(cells, cell{7, 7, 1}, cell{8, 7, 1}, cell{8, 8, 1}, cell{9, 9, 1}, cell{10, 10, 1}, cell{10, 8, 2})
 	} else {
 		for _, nt := range [][2]int{{2, 2}, {3, 2}, {3, 3}} {
 			for l := 1; l <= 3; l++ {
@@ -387,6 +388,8 @@ func gen(c *harness.C) []harness.Case {
 			}
 		}
 		cells = append(cells, cell{4, 3, 1}, cell{5, 3, 1}, cell{6, 4, 1}, cell{8, 2, 1}, cell{8, 5, 1})
+		// high thresholds: sums of many share terms (representation limits of unreduced scalars)
+		cells = append(cells, cell{7, 7, 1}, cell{8, 7, 1}, cell{8, 8, 1}, cell{9, 9, 1})
 	}
 	var cases []harness.Case
 	for _, k := range cells {
